@@ -2,6 +2,7 @@
 scenarios against the real code, verdicts, known findings and evidence files."""
 from __future__ import annotations
 
+import fnmatch
 import json
 import os
 import random
@@ -159,7 +160,8 @@ class Check:
         for rj in self.rejects:
             hit = None
             for k in known:
-                if rj["cls"] and rj["cls"] in k.get("classes", []) and \
+                if rj["cls"] and any(fnmatch.fnmatchcase(rj["cls"], pat) for pat in k.get("classes", [])) and \
+                        (not k.get("exc") or rj["rec"].get("exc") in k["exc"]) and \
                         set(rj["failing"]) <= set(k.get("clauses", rj["failing"])):
                     hit = k
                     break
